@@ -302,8 +302,18 @@ def rules_rule(ctx, prefix):
                     pat = n["cond"]["pat"] if n.get("k") == "if" and n["cond"].get("k") == "let" else (n.get("pat") if n.get("k") == "arm" else None)
                     if pat is not None and "AtKeyword" in sir.pat_str(pat) and any(b == nm for b, _p in sir.pat_bindings(pat)):
                         bound = True
-        oks = base_ok and bound and all(m in ("as_ref", "as_str", "to_ascii_lowercase", "to_lowercase", "deref") for m in chain)
-        ds = "the table is looked up with `%s`, the at-keyword's name itself: %s" % (sir.expr_str(scrut), oks)
+        # a later `let x = <something computed from x>` shadows the keyword with a transformed copy
+        transformed = []
+        if base_ok:
+            for n in sir.walk(f.body, into_closures=True):
+                if n.get("k") == "local" and n["pat"].get("name") == e["segs"][0] and n.get("init") is not None:
+                    i_ = sir.strip_ref(n["init"])
+                    while (i_.get("k") == "unary" and i_.get("op") == "*") or (i_.get("k") == "mcall" and not i_["args"] and i_["m"] in ("as_ref", "as_str", "deref", "clone")) or i_.get("k") == "paren":
+                        i_ = sir.strip_ref(i_["e"] if i_.get("k") in ("unary", "paren") else i_["recv"])
+                    if i_.get("k") != "path" and sir.root_expr_name(i_) == e["segs"][0]:
+                        transformed.append(sir.expr_str(n["init"])[:50])
+        oks = base_ok and bound and not transformed and all(m in ("as_ref", "as_str", "to_ascii_lowercase", "to_lowercase", "deref") for m in chain)
+        ds = "the table is looked up with `%s`, the at-keyword's name itself: %s%s" % (sir.expr_str(scrut), oks, (" (re-bound as `%s`)" % transformed[0]) if transformed else "")
     obs.append(ob("%s.rules/lookup-key" % prefix, oks, ctx.where(f), ds, witness=None if oks else "a transformed key (`starting-style` cut to `style`) silently stops matching"))
     for w in ref.get("declaration_block_at_rules", []):
         if w in names:
@@ -1204,6 +1214,33 @@ def rpx_rules(ctx, prefix):
     obs.append(ob("%s.expr/ratio-untouched" % prefix, not wr, "lib.rs", "options.rpx_ratio is not rewritten by the transformer: %s" % (wr or "no writers"),
                   witness=None if not wr else "10rpx at ratio 0.5 becomes 1000vw instead of 2000vw"))
     return obs
+
+
+def at_prelude_terminators_rule(ctx, prefix):
+    """an at-rule ends at its block or at its `;`: in the loop that copies the prelude, every arm one of these two tokens can
+    reach - in order, up to the first arm without a guard - ends the loop"""
+    ob = ctx.ob
+    roles = _roles(ctx)
+    d = roles.get("at-prelude")
+    if d is None:
+        return [ob("%s.ctx/at-prelude/terminators" % prefix, None, "lib.rs", "the prelude loop of at-rules was not found")]
+    probs = []
+    for tok in ("CurlyBracketBlock", "Semicolon"):
+        closed = False
+        seen = 0
+        for a in d.arms:
+            if closed or not (tok in a.variants or "_" in a.variants):
+                continue
+            seen += 1
+            ends = any(x.get("k") == "break" for x in sir.walk(a.body)) or any(x.get("k") == "return" and x.get("e") is not None and re.search(r"Ok\((false|False)\)|Err\(", sir.expr_str(x["e"]).replace(" ", "")) for x in sir.walk(a.body))
+            if not ends:
+                probs.append("a `%s` can reach the arm `%s`, which goes on reading" % ("{" if tok == "CurlyBracketBlock" else ";", sir.pat_str(a.node["pat"])[:30]))
+            if a.node.get("guard") is None:
+                closed = True
+        if not seen:
+            probs.append("no arm for %s" % tok)
+    return [ob("%s.ctx/at-prelude/terminators" % prefix, not probs, ctx.where(d.fn), "; ".join(probs) if probs else "`{` and `;` end the at-rule on every path",
+               witness=None if not probs else "@layer a, b; .x{} : the selector `.x` is swallowed by the prelude of @layer and stays unprefixed")]
 
 
 def options_untouched_rule(ctx, prefix):
